@@ -47,13 +47,13 @@ CHECKS = {
    text="Every sequence of setters (set, set_if_not_eq, set_if_hash_not_eq, take, update, update_if with all four mutate/answer combinations; three values of which two are different but hash-equal) on the unique Observable, on SharedObservable clones and through write guards, interleaved with every subscriber call (poll as Stream / next() / next_ref(), next_now, next_ref_now, get, read, reset, clone, clone_reset, drop) on up to 2-3 subscribers, to depth 4 (quick) / 5 (thorough) from 11 start states, in lock-step with a value/epoch model: every value handed out is the latest, a poll is Ready exactly when the model says an unobserved notifying update exists (or after reset), every setter returns and notifies exactly as stated, get/read never mark, next_now marks, clone copies.",
    note="single-threaded (thread schedules are C02-C04's loom half); hash collisions of DefaultHasher not considered"),
  "C02": dict(design="4 (C02)", tech=SEQ + " + " + LOOM, engine="seqmc+loom",
-   text="Operation granularity: in every enumerated history (depth 4/5, up to 3 subscribers) every subscriber whose last poll was Pending must have that poll's waker woken by the time a notifying update or the drop of the last owner returns - checked for every pending subscriber at once. Thread granularity: loom explores every interleaving (preemption bound 3 quick, unbounded thorough) of five programs in which subscriber threads block in next() on a park-style executor while another thread updates / drops; a lost wake-up is a deadlock that loom reports.",
+   text="Operation granularity: in every enumerated history (depth 4/5, up to 3 subscribers) every subscriber whose last poll was Pending must have that poll's waker woken by the time a notifying update or the drop of the last owner returns - checked for every pending subscriber at once. Thread granularity: loom explores every interleaving (preemption bound 2-3 quick, 3/unbounded thorough) of five hand-written and ~50 generated programs (one or two subscriber threads looping on next() on a park-style executor against every writer sequence of length <= 2 over set / update / non-notifying set_if_not_eq / write-guard double set followed by the drop of the owner, for SharedObservable and for the unique Observable); a lost wake-up is a deadlock that loom reports.",
    note="loom half covers the sync flavour only; RwLock fairness not modelled (loom admits more schedules)"),
  "C03": dict(design="4 (C03)", tech=SEQ + " + " + LOOM, engine="seqmc+loom",
-   text="History half: after every token of every history of clone / drop / downgrade / upgrade / into_shared / subscribe / set / poll (depth 4/5, up to 3 handles, 2 weak references) every subscriber is probed through a reset clone: Ready(None) exactly when no owner exists; get/read keep the last value after the end; upgrade succeeds exactly while an owner exists. Schedule half: loom explores all interleavings of two or three clones dropped on different threads, of the last drop racing with WeakObservable::upgrade, and of clone racing with drop; afterwards the stream must have ended (or be open while an upgraded owner lives).",
+   text="History half: after every token of every history of clone / drop / downgrade / upgrade / into_shared / subscribe / set / poll (depth 4/5, up to 3 handles, 2 weak references) every subscriber is probed through a reset clone: Ready(None) exactly when no owner exists; get/read keep the last value after the end; upgrade succeeds exactly while an owner exists. Schedule half: loom explores all interleavings of two or three clones dropped on different threads, of the last drop racing with WeakObservable::upgrade, of clone racing with drop, and of every pair of {drop, clone-and-drop-both, downgrade-drop-upgrade, subscribe-drop} run on two threads next to a blocked subscriber; afterwards the stream must have ended (or be open while an upgraded owner lives).",
    note="found the concurrent-last-drop defect repaired by repo commit ed96a5a"),
  "C04": dict(design="4 (C04)", tech=LOOM + " + " + SEQ, engine="loom+seqmc",
-   text="Nine two-/three-thread programs on clones of one SharedObservable (set||set, update||update||get, set_if_not_eq twice, read guard vs set, write guard vs get/next_now, writer vs subscriber thread, subscribe vs set, next_now vs set, next_ref_now/get vs two sets) explored over every interleaving (bound 3 quick, unbounded thorough); recorded invocation/response histories are checked by brute force against the sequential register specification, plus direct invariants (no lost increment, exactly one winner, monotone subscriber). The guard-exclusion facts are additionally enumerated sequentially with try_read/try_write probes under every guard kind.",
+   text="Nine hand-written two-/three-thread programs on clones of one SharedObservable (set||set, update||update||get, set_if_not_eq twice, read guard vs set, write guard vs get/next_now, writer vs subscriber thread, subscribe vs set, next_now vs set, next_ref_now/get vs two sets) plus generated ones - every unordered pair of {set(1), set(2), update, set_if_not_eq, take, get, write-guard double set} on two threads (all 2-against-1 triples in the thorough tier), and every subscriber-side sequence of length <= 2 over {next_now, next_ref_now, poll next, get, read} against one or two increments - explored over every interleaving (bound 3 quick, unbounded thorough); recorded invocation/response histories are checked by brute force against the sequential register specification, plus direct invariants (no lost increment, exactly one winner, monotone subscriber). The guard-exclusion facts are additionally enumerated sequentially with try_read/try_write probes under every guard kind.",
    note="histories have <= 4 operations; loom's RwLock has no writer preference"),
  "C16": dict(design="4 (C16)", tech=SEQ,
    text="The C01-C04 sequential sweeps (values, wake-ups, handle histories, guard exclusion; depth 3-4 quick, 4-5 thorough) are run on Observable::new_async / SharedObservable::new_async and Subscriber<_, AsyncLock> through the same token language against the same reference model as the sync flavour; every async call is polled by a hand-rolled executor and must complete on its first poll when no guard is held. Second half: guard tasks parked on harness gates while holding a write or read guard, with set / set_if_not_eq / get / subscriber next() tasks queued behind them; tokens spawn, poll, open-gate, cancel and settle (poll woken tasks until quiescent) to depth 4-6 (quick) / 5-7: exclusion, results at completion order, and no task may stay pending once every gate is open and no woken waker is left.",
